@@ -213,6 +213,25 @@ func runC17(cfg *config) *Report {
 				kind = "spoiled " + names[k] + " (several members)"
 			}
 		}
+		if i%6 == 3 {
+			// a nil entry in front of the cash-letter level lists (what `"creditItem": [null, {...}]` leaves behind): an
+			// observer may skip it, it must not compact the list it was handed
+			for ci := range f.CashLetters {
+				cl := &f.CashLetters[ci]
+				if len(cl.CreditItems) > 0 {
+					cl.CreditItems = append([]*icl.CreditItem{nil}, cl.CreditItems...)
+					kind = "nil list entries"
+				}
+				if len(cl.Credits) > 0 {
+					cl.Credits = append([]*icl.Credit{nil}, cl.Credits...)
+					kind = "nil list entries"
+				}
+				if len(cl.RoutingNumberSummary) > 0 {
+					cl.RoutingNumberSummary = append([]*icl.RoutingNumberSummary{nil}, cl.RoutingNumberSummary...)
+					kind = "nil list entries"
+				}
+			}
+		}
 		rep.count("file:" + kind[:min(7, len(kind))])
 		seqLen := 6 + r.Intn(8)
 		var seq []string
